@@ -1,4 +1,4 @@
-From DB Require Import Base.Bytes Model.CodecEntry Model.Frame Model.CodecProto Model.CodecUpdate.
+From DB Require Import Base.Bytes Model.CodecEntry Model.Frame Model.CodecProto Model.CodecUpdate Model.CodecPayload.
 Require Extraction.
 Require Import ExtrOcamlBasic.
 Extraction Language OCaml.
@@ -12,4 +12,4 @@ Extraction "../ocaml/c13/model.ml" util_add util_mul util_divmod
   mb_encode mb_size mb_decode bs_encode bs_size bs_decode sn_encode sn_size sn_decode
   msg_encode msg_size msg_decode msg_size_upper bt_encode bt_size bt_decode bt_size_upper
   ck_encode ck_size_of ck_decode
-  update_encode update_decode update_size_upper.
+  update_encode update_decode update_size_upper get_encoded get_decoded.
